@@ -311,6 +311,14 @@ func parserNodeBodies(p proto.Protocol) map[string][]byte {
 				arg.Reset()
 				arg.Write(idw.Bytes())
 			}
+		case id == "minecraft:score_holder":
+			arg.Write(idw.Bytes())
+			arg.WriteByte(1)
+		case id == "minecraft:time":
+			arg.Write(idw.Bytes())
+			if p.GreaterEqual(version.Minecraft_1_19_4) {
+				arg.Write([]byte{0, 0, 0, 5})
+			}
 		default:
 			arg.Write(idw.Bytes())
 		}
@@ -558,9 +566,14 @@ func main() {
 				for _, id := range ids {
 					parsersExercised[id] = true
 					add(r, "brigadier-parser="+id, pb[id])
-					muts := everyVarIntMutation(pb[id], 6) // from the parser id on (the node prefix is covered by the generic mutations)
-					if len(pb[id]) <= 12 && f.Tier == "quick" && len(muts) > 4 {
-						muts = muts[:4] // parsers without properties: the id itself
+					muts := everyVarIntMutation(pb[id], 8) // from the parser id on (the node prefix is covered by the generic mutations)
+					if f.Tier == "quick" {
+						if len(pb[id]) <= 12 && len(muts) > 4 {
+							muts = muts[:4] // parsers without properties: the id itself
+						}
+						if r.Proto != hiProto && id != "crossstitch:mod_argument" && len(muts) > 8 {
+							muts = muts[:8]
+						}
 					}
 					for _, m := range muts {
 						add(r, "brigadier-parser-mutated="+id, m)
